@@ -1,0 +1,5 @@
+//go:build !verif
+
+package badgerstore
+
+func verifPoint(string, interface{}) {}
